@@ -385,6 +385,22 @@ theorem subquery_error (env : Env N) (ctx : Ctx N) (cur : Row N) (q : Query N)
     simp only [] at he ⊢
     rw [he]; exact ⟨e, rfl⟩
 
+/-- **EXISTS over a failing query fails** (it is not read as "no rows") -/
+theorem exists_error (env : Env N) (ctx : Ctx N) (cur : Row N) (q : Query N)
+    (h : IsError (prepare env (withMarker cur ctx.data) {} q)) : EF env ctx cur (.exists q) := by
+  obtain ⟨e, he⟩ := h
+  unfold EF
+  simp only [evalExpr, bind, Except.bind, he]
+  exact ⟨e, rfl⟩
+
+/-- `x IN (SELECT …)` with a failing sub-query: the sub-query sits in a strict position of the comparison -/
+theorem in_subquery_error (env : Env N) (ctx : Ctx N) (cur : Row N) (x : Expr N) (q : Query N)
+    (h1 : IsError (execQuery env (withMarker cur ctx.data) {} q)) :
+    EF env ctx cur (.cmp .in_ x (.subq q)) :=
+  (strict_step env ctx cur (.cmpR .in_ x (.subq q))
+    ⟨(subquery_error env ctx cur q h1).toVF,
+     (subquery_error env ctx _ q (by rw [withMarker_idem]; exact h1)).toVF⟩).1
+
 /-- **a CTE whose body fails fails the query that reads it** (`WITH c AS (inner) SELECT … FROM c`) -/
 theorem cte_fault_propagates (env : Env N) (data : Row N) (c : String) (inner : Query N) (d : Bool)
     (sel : List (SelItem N)) (alias : String) (wh : Expr N) (gb : List (String × List String)) (hv : Expr N)
@@ -411,6 +427,26 @@ theorem nestedRun_on_error (on : Row N → R Bool) (inner : Bool) (ri : String) 
   apply isError_bind
   apply mapE_isError _ _ re hr
   unfold nestedPair
+  exact isError_bind _ h
+
+/-! ### ORDER BY -/
+
+/-- **a sort key that cannot be read on ONE row fails the sort** (with at least two rows — with fewer the
+    comparator never runs, in Go as in the model): no partially sorted result -/
+theorem sortRows_key_error (orderBy : List (List String × Bool)) (rows : List (Val N)) (h2 : 2 ≤ rows.length)
+    (r : Val N) (hr : r ∈ rows) (k : List String × Bool) (hk : k ∈ orderBy) (h : IsError (readPath k.1 r)) :
+    IsError (sortRows orderBy rows) := by
+  unfold sortRows
+  have h1 : orderBy.isEmpty = false := by
+    cases orderBy with
+    | nil => cases hk
+    | cons _ _ => rfl
+  have h3 : ¬ rows.length ≤ 1 := by omega
+  simp only [h1, Bool.false_or, decide_eq_true_eq, h3, if_false]
+  apply isError_bind
+  apply mapE_isError _ _ r hr
+  apply isError_bind
+  apply mapE_isError _ _ k hk
   exact isError_bind _ h
 
 /-! ### non-vacuity: a concrete nested fault -/
